@@ -181,6 +181,16 @@ SCENARIOS = [
          text="def fn(*, {X}=3):\n    {X} += 1\n    {Y} = {X} * 2\n    return {Y}\n\n\nprint(fn(), fn({X}=5))\n",
          scopes=[("M", "none", "module"), ("F", "M", "function")],
          occ=[("X", "F", "param"), ("X", "F", "store"), ("Y", "F", "store"), ("X", "F", "load"), ("Y", "F", "load"), ("X", "F", "kw")]),
+    # attributes of a class that is not a top-level statement (nested in a class, made in a function), read by attribute access only
+    dict(name="nested_class_attr", distinct=False, exec_only=True,
+         text="class Outer:\n    class Meta:\n        {X} = 1\n        {Y}: int = 2\n\n    def meth(self):\n        return self.Meta.{X} + Outer.Meta.{Y}\n\n\n"
+              "print(Outer().meth(), Outer.Meta.{X})\n",
+         scopes=[("M", "none", "module"), ("K", "M", "class"), ("N", "K", "class"), ("F", "K", "function")],
+         occ=[("X", "N", "store"), ("Y", "N", "store"), ("X", "N", "attr"), ("Y", "N", "attr"), ("X", "N", "attr")]),
+    dict(name="factory_class_attr", distinct=False, exec_only=True,
+         text="def make():\n    class Made:\n        {X} = 1\n        {Y} = 2\n\n    return Made\n\n\nkls = make()\nprint(kls.{X} + kls().{Y})\n",
+         scopes=[("M", "none", "module"), ("F", "M", "function"), ("K", "F", "class")],
+         occ=[("X", "K", "store"), ("Y", "K", "store"), ("X", "K", "attr"), ("Y", "K", "attr")]),
     # two functions with one body (the duplicate-function merge deletes one): the names are used as VALUES, not only called
     dict(name="dup_functions_as_values", distinct=True,
          text="def {X}(v):\n    return v * 2\n\n\ndef {Y}(v):\n    return v * 2\n\n\ndef other(v, fn={Y}):\n    return fn(v)\n\n\n"
@@ -503,6 +513,11 @@ def _chunk(recs):
         except SyntaxError as exc:
             machinery.append({"why": f"rendered program is not valid Python: {exc}", "source": text})
             continue
+        if scn.get("exec_only"):
+            # attribute access through an object whose class the harness's resolver does not follow (a class reached through
+            # another class or through a call): Rename.tla gives the partition, execution is the oracle
+            programs.append((rec, text))
+            continue
         by_pos = {(ln, col): grp for ln, col, _, grp in res.occ}
         mine = [by_pos.get(p) for p in pos]
         if None in mine:
@@ -580,6 +595,22 @@ def _chunk(recs):
     return st, machinery, bad, programs
 
 
+def directed_programs():
+    """Programs in which a name the tool would GENERATE is taken already (text the tool formatted before, extended by hand)."""
+    out = []
+    # (a constant that is no string gets a numbered name: pyrefact_overused_constant_<i>)
+    first, second = ("alpha", "beta", "gamma", "delta"), ("north", "east", "south", "west", "up")
+    for taken in ("PYREFACT_OVERUSED_CONSTANT_0", "pyrefact_overused_constant_0", "Pyrefact_Overused_Constant_0"):
+        uses_a = "".join(f"def a{i}(v):\n    return (v,) + {taken}\n\n\n" for i in range(2))
+        uses_b = "".join(f"def b{i}(v):\n    return (v,) + {second!r}\n\n\n" for i in range(5))
+        calls = "print(" + ", ".join([f"a{i}('x')" for i in range(2)] + [f"b{i}('y')" for i in range(5)]) + ")\n"
+        out.append(({"scenario": "generated_name_taken", "assign": {"X": taken}}, f"{taken} = {first!r}\n\n\n" + uses_a + uses_b + calls))
+        inner = "".join(f"    print((v,) + {second!r})\n" for i in range(5))
+        out.append(({"scenario": "generated_name_taken_local", "assign": {"X": taken}},
+                    f"def run(v):\n    {taken.lower()} = {first!r}\n{inner}    return (v,) + {taken.lower()}\n\n\nprint(run('z'))\n"))
+    return out
+
+
 def _format_chunk(items):
     mods = import_pyrefact()
     out = []
@@ -587,6 +618,9 @@ def _format_chunk(items):
         res = {}
         for label, fn in (("fixes.align_variable_names_with_convention", mods["fixes"].align_variable_names_with_convention),
                           ("fixes.remove_duplicate_functions", lambda s: mods["fixes"].remove_duplicate_functions(s, preserve=set())),
+                          ("fixes.undefine_unused_variables", lambda s: mods["fixes"].undefine_unused_variables(s, preserve=set())),
+                          ("fixes.delete_pointless_statements", mods["fixes"].delete_pointless_statements),
+                          ("abstractions.overused_constant", lambda s: mods["abstractions"].overused_constant(s, root_is_static=True)),
                           ("format_code", lambda s: mods["main"].format_code(s, safe=True))):
             try:
                 res[label] = fn(text)
@@ -646,6 +680,7 @@ def main(argv=None) -> int:
             else:
                 rep.violation(case["what"], case)
     # ---- execution as the second oracle (also for format_code, whose output is not token-aligned)
+    programs += directed_programs()
     with mp.get_context("fork").Pool(n) as pool_:
         outs = [x for part in pool_.map(_format_chunk, [programs[i::n] for i in range(n)]) for x in part]
     runner = execbox.default_runner()
